@@ -48,6 +48,113 @@ class ScriptedRandom(random.Random):
         return self._fn(k)
 
 
+class KeyBuilder:
+    """
+    Template-based builder for the opaque keys of C15 counterexamples (pyvc/containers.py):
+    a model element of sort Key_<Class> becomes a tiny real object of that class.
+      NamedId    -> NamedId('k<i>')
+      Expr       -> Integer(0)                      (no variable uses: the expression visit accepts it)
+      StmtBlock  -> [x = 0 for x in gen_block(b, .)] + [return 0 if term_block(b) / not cc_block(b, True)]
+      TupleBinding -> (names with binds_tuple(p, .))
+      <Stmt class> -> a minimal statement of that class
+    The ghost tables of the model only steer the *construction*; during replay the ghost predicates
+    are evaluated by the native reference implementation spec/c15_ref.py on the built objects.
+    """
+
+    def __init__(self, doc):
+        self.ghost = doc.get('ghost') or {}
+        self.memo = {}
+        self.names = []          # universe element names of sort NamedId
+        self._scan(doc.get('args'))
+
+    def _scan(self, v):
+        if isinstance(v, list):
+            for x in v:
+                self._scan(x)
+        elif isinstance(v, dict):
+            if v.get('$key') == 'NamedId' and v['name'] not in self.names:
+                self.names.append(v['name'])
+            if v.get('$map') == 'NamedId' or v.get('$set') == 'NamedId':
+                for u in v.get('universe', []):
+                    if u not in self.names:
+                        self.names.append(u)
+            for x in v.values():
+                self._scan(x)
+
+    def table(self, name, *args, default=False):
+        ent = self.ghost.get(name)
+        if ent is None:
+            return default
+        for a, r in ent['table']:
+            if list(a) == list(args):
+                return r
+        return ent['else'] if ent['else'] is not None else default
+
+    def all_keys(self):
+        return list(self.memo.values())
+
+    def key(self, kname, name):
+        mk = (kname, name)
+        if mk in self.memo:
+            return self.memo[mk]
+        from fpy2.utils import NamedId
+        import fpy2.ast.fpyast as A
+        zero = lambda: A.Integer(0, None)
+        if kname == 'NamedId':
+            if name not in self.names:
+                self.names.append(name)
+            o = NamedId('k' + 'abcdefghij'[self.names.index(name) % 10] * (1 + self.names.index(name) // 10))
+        elif kname == 'Expr':
+            o = zero()
+        elif kname == 'StmtBlock':
+            gen = [u for u in list(self.names) if self.table('gen_block', name, u)]
+            if 'term_block' in self.ghost or 'gen_block' in self.ghost:
+                ret = bool(self.table('term_block', name))
+            else:
+                ret = not self.table('cc_block', name, True, default=True)
+            stmts = [A.Assign(self.key('NamedId', u), None, zero(), None) for u in gen]
+            if ret:
+                stmts.append(A.ReturnStmt(zero(), None))
+            if not stmts:
+                stmts.append(A.PassStmt(None))
+            o = A.StmtBlock(stmts)
+        elif kname == 'Stmt':
+            # an abstract statement with the model's gen/term (or can-complete) behaviour
+            gen = [u for u in list(self.names) if self.table('gen_stmt', name, u)]
+            if 'term_stmt' in self.ghost or 'gen_stmt' in self.ghost:
+                ret = bool(self.table('term_stmt', name))
+            else:
+                ret = not self.table('cc_stmt', name, True, default=True)
+            if ret:
+                o = A.ReturnStmt(zero(), None)
+            elif gen:
+                mk = lambda: A.StmtBlock([A.Assign(self.key('NamedId', u), None, zero(), None) for u in gen])
+                o = A.IfStmt(zero(), mk(), mk(), None)
+            else:
+                o = A.PassStmt(None)
+        elif kname == 'TupleBinding':
+            o = A.TupleBinding([self.key('NamedId', u) for u in list(self.names) if self.table('binds_tuple', name, u)], None)
+        elif kname == 'Assign':
+            o = A.Assign(NamedId('tmp'), None, zero(), None)
+        elif kname == 'IndexedAssign':
+            o = A.IndexedAssign(NamedId('tmp'), [zero()], zero(), None)
+        elif kname == 'AssertStmt':
+            o = A.AssertStmt(zero(), None, None)
+        elif kname == 'EffectStmt':
+            o = A.EffectStmt(zero(), None)
+        elif kname == 'ReturnStmt':
+            o = A.ReturnStmt(zero(), None)
+        elif kname == 'PassStmt':
+            o = A.PassStmt(None)
+        else:
+            raise ValueError(f'no template for a key of class {kname}')
+        self.memo[mk] = o
+        return o
+
+
+_KB = None
+
+
 def build(v, env, ghost_fn):
     if v is None or isinstance(v, (bool, int, str)):
         return v
@@ -71,6 +178,18 @@ def build(v, env, ghost_fn):
         if '$default' in v:
             from fpy2.utils import DEFAULT
             return DEFAULT
+        if '$key' in v:
+            return _KB.key(v['$key'], v['name'])
+        if '$map' in v:
+            for u in v.get('universe', []):
+                _KB.key(v['$map'], u)
+            return {_KB.key(v['$map'], k): x for k, x in v['items']}
+        if '$set' in v:
+            for u in v.get('universe', []):
+                _KB.key(v['$set'], u)
+            return {_KB.key(v['$set'], k) for k in v['items']}
+        if '$kseq' in v:
+            return tuple(_KB.key(v['$kseq'], k) for k in v['items'])
         if '$opaque' in v:
             tag = v['$opaque']
             if 'rng' in tag or 'Random' in tag:
@@ -103,6 +222,10 @@ def make_ghost(ghost):
 
 def show(v, depth=0):
     try:
+        if type(v).__name__ == '_Env':
+            return f'_Env(env={v.env!r}, terminated={v.terminated})'
+        if type(v).__name__ == '_Ctx':
+            return f'_Ctx(env={show(v.env)}, within_call={v.within_call})'
         return repr(v)
     except Exception as e:
         return f'<{type(v).__name__} (repr failed: {e})>'
@@ -121,6 +244,8 @@ def replay(doc, ghost_override=None):
     cmod = importlib.import_module(doc['contract_module'])
     C = getattr(cmod, doc['contract'])
     env = {}
+    global _KB
+    _KB = KeyBuilder(doc)
     pending = dict(doc['args'])
     built = {}
     for _ in range(len(pending) + 1):          # a '$ref' may point at an argument built later
@@ -133,6 +258,13 @@ def replay(doc, ghost_override=None):
     if pending:
         raise KeyError(f'unresolved $ref in arguments {sorted(pending)}')
     args = {k: built[k] for k in doc['args']}
+    if _KB.memo:
+        # C15: ghosts over AST nodes mean the reference rule set on the real objects; forall_keys ranges
+        # over every key built from the model plus two names that occur nowhere
+        from spec import c15_ref
+        from fpy2.utils import NamedId
+        speclib.GHOST.update(c15_ref.GHOSTS)
+        speclib.KEY_UNIVERSE[:] = _KB.all_keys() + [NamedId('zz_unused_a'), NamedId('zz_unused_b')]
     out = {'contract': doc['contract'], 'obligation': doc.get('obligation'), 'inputs': {k: show(v) for k, v in args.items()}}
 
     def spec(fname, extra=None):
@@ -209,7 +341,9 @@ def replay(doc, ghost_override=None):
     if outcome[0] == 'raise':
         ename = outcome[1]
         key = ename if ename in rz else next((b for b in outcome[2] if b in rz), None)
-        if key is None:
+        if key is None and (ename in getattr(C, 'may_raise', []) or any(b in getattr(C, 'may_raise', []) for b in outcome[2])):
+            pass
+        elif key is None:
             failed.append(f'raises[unexpected:{ename}]')
         elif not rz[key]:
             failed.append(f'raises[{key}]')
